@@ -305,4 +305,35 @@ theorem keysOk_cds {t : STx} {pq : Quals} (hp : KeysOk pq) : KeysOk (cdsExportQu
   unfold cdsExportQuals
   exact keysOk_addOpt (by decide) _ (keysOk_addOpt (by decide) _ (keysOk_mergeQuals (fun _ h => by simp at h) hp))
 
+theorem keysOk_setKey {key : Str} (hk : key ≠ []) (vals : List Str) : ∀ {q : Quals}, KeysOk q → KeysOk (setKey key vals q)
+  | [], _ => by intro kv h; simp only [setKey, List.mem_singleton] at h; subst h; exact hk
+  | (k0, vs) :: rest, hq => by
+    intro kv h
+    rw [setKey] at h
+    split at h
+    · rcases List.mem_cons.mp h with e | h'
+      · subst e; exact hq (k0, vs) List.mem_cons_self
+      · exact hq kv (List.mem_cons_of_mem _ h')
+    · rcases List.mem_cons.mp h with e | h'
+      · subst e; exact hq (k0, vs) List.mem_cons_self
+      · exact keysOk_setKey hk vals (fun x hx => hq x (List.mem_cons_of_mem _ hx)) kv h'
+
+theorem keysOk_fc {c : SFc} (h : KeysOk c.quals) : KeysOk (fcExportQuals c) := by
+  unfold fcExportQuals
+  have h4 := keysOk_addOpt (key := kFcType) (by decide) c.fctype (keysOk_addOpt (key := kLocusTag) (by decide) c.locus
+    (keysOk_addOpt (key := kFcName) (by decide) c.name (keysOk_addOpt (key := kFcId) (by decide) c.fcid h)))
+  simp only
+  split
+  · exact h4
+  · exact keysOk_setKey (by decide) _ h4
+
+theorem keysOk_feat {f : SFeat} {pq : Quals} (h : KeysOk f.quals) (hp : KeysOk pq) : KeysOk (featExportQuals f pq) := by
+  unfold featExportQuals
+  have h2 := keysOk_addOpt (key := kFeatureId) (by decide) f.fid
+    (keysOk_addOpt (key := kFeatureName) (by decide) f.name (keysOk_mergeQuals h hp))
+  simp only
+  split
+  · exact h2
+  · exact keysOk_setKey (by decide) _ h2
+
 end BioCantor.Proofs.GffQuals
